@@ -257,4 +257,12 @@ def run(chk: Check):
     rule_y4(chk, ix)
     rule_y4b(chk, repo.ir_x())
     rule_y5(chk, repo.ir_x())
+    # the reported text comes from the line cache and from how lines are split: a cache shared between parsers (C13 U2/U3) or a
+    # newline mode that differs between the entry points (C12 Z2/Z3/Z4) makes `text` and line numbers wrong
+    from .c12 import rule_z2_z3, rule_z4
+    from .c13 import rule_u2, rule_u3
+    rule_z2_z3(chk, ix)
+    rule_z4(chk, ix)
+    rule_u2(chk)
+    rule_u3(chk, ix)
     chk.units["functions"] = len(ix.funcs)
